@@ -17,7 +17,8 @@ cd $WT
 run_demo() {
   if [ -f $DIR/demo.rs ]; then
     mkdir -p tests; cp $DIR/demo.rs tests/demo.rs
-    timeout 900 cargo test --offline --test demo >/tmp/${TAG}_demo.log 2>&1; rc=$?
+    cmd=$(cat $DIR/DEMO_CMD 2>/dev/null || echo "cargo test --offline --test demo")
+    timeout 900 bash -c "$cmd" >/tmp/${TAG}_demo.log 2>&1; rc=$?
     rm -rf tests
   elif [ -f $DIR/demo.diff ]; then
     git apply $DIR/demo.diff || { echo "demo.diff does not apply"; return 99; }
